@@ -18,9 +18,20 @@ RULE = ('VBS, 1014-blocked VBS and IPM files (1..12 records, lengths biased to 1
         'must yield exactly those, in order, then end or raise MciIpmDataError. Non-trivial = a cut strictly inside the '
         'file; distinct by (file digest, offset).')
 ASSUMPTIONS = ['either ending (clean end or MciIpmDataError) is accepted at every offset',
+               'the truncated data arrives as an in-memory file or (every third offset) as a read-only, non-seekable stream',
                'IPM records are compared with iso8583.loads of the reference-framed record bytes (framing is the subject here; decoding is C01/C02)']
 
 ENCODINGS = ['latin_1', 'cp500']
+
+
+class Pipe:
+    """a stream that can only be read (like a pipe or stdin): no seek, no tell"""
+
+    def __init__(self, data):
+        self._f = io.BytesIO(data)
+
+    def read(self, n=-1):
+        return self._f.read(n)
 
 
 def read_all(reader, limit):
@@ -41,10 +52,11 @@ def check_cut(data, cut, blocked, ipm_encoding=None):
     part = data[:cut]
     payload = refvbs.payload_of(part) if blocked else part
     want, ending, _ = refvbs.complete_records(payload)
+    src = Pipe(part) if cut % 3 == 1 else io.BytesIO(part)   # a third of the cuts arrive over a non-seekable stream
     if ipm_encoding:
-        reader = mciipm.IpmReader(io.BytesIO(part), encoding=ipm_encoding, blocked=blocked)
+        reader = mciipm.IpmReader(src, encoding=ipm_encoding, blocked=blocked)
     else:
-        reader = mciipm.VbsReader(io.BytesIO(part), blocked=blocked)
+        reader = mciipm.VbsReader(src, blocked=blocked)
     got, how = read_all(reader, len(want) + 2)
     form = ('ipm-' if ipm_encoding else 'vbs-') + ('1014' if blocked else 'plain')
     if isinstance(how, Exception):
